@@ -8,6 +8,7 @@ port <b|n> <min> <max> <step> <integer> <choices> <enabled> <writable> <hasTw>  
 value <known> <jval> <tout>
 seq <known> <repeat jval> <n> (<jval> <tout>){n} <m> (<jval>){m}
 enable | disable | advance <ms>
+redefine <same fields as port>      the port is removed and created again under the same id
 ```
 jval: null b0 b1 i<n/d> f<n/d> xnan xinf xninf s a o        choice: b0 b1 n<n/d>
 tout: - (port has no write transform) | u (unavailable) | e (raises) | v<jval>
@@ -153,6 +154,15 @@ def dstep (d : DState) : List String → DState × String
                 st := { d := { type := ty, min := mn, max := mx, step := stp, integer := ig, choices := cs,
                                enabled := en, writable := wr } } }, "ok")
     | _, _, _, _, _, _, _, _, _ => (d, "bad-op")
+  | ["redefine", ty, mn, mx, stp, ig, cs, en, wr, tw] =>
+    -- same fields as `port`; keeps the clock and the driver's call log, forgets the transform table
+    let ty? : Option PType := if ty == "b" then some .boolean else if ty == "n" then some .number else none
+    match d.hasPort, ty?, optRatOf mn, optRatOf mx, optRatOf stp, boolOf ig, choicesOf cs, boolOf en, boolOf wr, boolOf tw with
+    | true, some ty, some mn, some mx, some stp, some ig, some cs, some en, some wr, some tw =>
+      let (d', rep) := exec d (.redefine { type := ty, min := mn, max := mx, step := stp, integer := ig, choices := cs,
+                                           enabled := en, writable := wr })
+      ({ d' with hasTw := tw, table := [] }, rep)
+    | _, _, _, _, _, _, _, _, _, _ => (d, "bad-op")
   | ["value", k, v, t] =>
     match d.hasPort, boolOf k, pairsOf [v, t] with
     | true, some k, some [(v, t)] =>
